@@ -103,6 +103,7 @@ func (e *effects) mutatesRecv(fn *ssa.Function, depth int) bool {
 }
 
 func runC14(c *Ctx) {
+	runC14Extra(c)
 	const pkg = "service/state"
 	pf := c.pkgFuncs(pkg)
 	eff := &effects{c: c, memo: map[*ssa.Function]int{}}
@@ -556,4 +557,136 @@ func pathAvoidingBlocks(fn *ssa.Function, from ssa.Instruction, target, avoid fu
 		}
 		return false
 	})
+}
+
+// runC14Extra: rules added after independently produced mutants were missed.
+func runC14Extra(c *Ctx) {
+	const pk = "service/state"
+	// (1) Equal compares every field that is part of the account's content
+	if fn := c.mustFn(pk, "accountSnapshotImpl", "Equal"); fn != nil {
+		read := map[string]bool{}
+		for _, b := range fn.Blocks {
+			for _, in := range b.Instrs {
+				fa, ok := in.(*ssa.FieldAddr)
+				if !ok {
+					continue
+				}
+				if strings.HasPrefix(render(fa), "&$r.") {
+					read[fieldName(fa.X.Type(), fa.Field)] = true
+				}
+			}
+		}
+		// content fields of accountData (database and the object cache are not content) plus objGraph
+		for _, f := range []string{"version", "balance", "isContract", "state", "contractOwner", "apiInfo", "curContract", "nextContract", "store", "deposits", "objGraph"} {
+			c.check(read[f], "C14.equal-covers", "accountSnapshot.Equal compares "+f, fn.Pos(), "read", "Equal ignores the "+f+" of an account: the trie treats a change of only that field as no change, so the hash and the stored snapshot stay stale")
+		}
+	}
+	// (2) an empty storage trie is recorded as `no storage`
+	if fn := c.mustFn(pk, "accountStateImpl", "GetSnapshot"); fn != nil {
+		n := 0
+		for _, fs := range fieldStoresAny([]*ssa.Function{fn}, "accountData") {
+			if fieldName(fs.Addr.X.Type(), fs.Addr.Field) != "store" {
+				continue
+			}
+			for _, fl := range flowsOf(fs.Store.Val, nil) {
+				if isNilConst(fl.Src) {
+					continue
+				}
+				n++
+				gs := append(append([]Guard{}, fl.Guards...), guardsAt(fs.Store)...)
+				_, okE := holds(gs, wFalse("not empty", `\.Empty\(\)$`))
+				c.check(okE, "C14.canonical-empty", "a storage snapshot is recorded only if it is not empty", fs.Store.Pos(), "store.Empty() → nil", "an emptied storage trie is kept in the snapshot: an account whose storage was written and deleted again differs from a never-touched one, so the state hash depends on history")
+			}
+		}
+		c.check(n >= 1, "C14.canonical-empty", "GetSnapshot records the storage", fn.Pos(), fmt.Sprint(n), "no storage snapshot recorded")
+	}
+	// (3) Reset to a snapshot without storage clears both views of the storage
+	if fn := c.mustFn(pk, "accountStateImpl", "Reset"); fn != nil {
+		var a, b []*ssa.Store
+		for _, blk := range fn.Blocks {
+			for _, in := range blk.Instrs {
+				st, ok := in.(*ssa.Store)
+				if !ok || !isNilConst(st.Val) {
+					continue
+				}
+				fa, ok := st.Addr.(*ssa.FieldAddr)
+				if !ok || fieldName(fa.X.Type(), fa.Field) != "store" {
+					continue
+				}
+				if namedOf(fa.X.Type()) == "accountStateImpl" {
+					a = append(a, st)
+				} else if namedOf(fa.X.Type()) == "accountData" {
+					b = append(b, st)
+				}
+			}
+		}
+		ok := len(a) == 1 && len(b) == 1 && a[0].Block() == b[0].Block()
+		c.check(ok, "C14.reset-complete", "Reset to a snapshot without storage drops the mutable and the read view of the storage together", fn.Pos(), "s.store = nil; s.accountData.store = nil", "only one of the two storage references is cleared: after Reset, reads still see values written after the snapshot")
+	}
+	// (4) world Reset: the account trie is reset before the cached accounts are re-synchronised from it
+	if fn := c.mustFn(pk, "worldStateImpl", "Reset"); fn != nil {
+		var trieReset ssa.Instruction
+		for _, cs := range c.calls(fn, byMethod("Reset")) {
+			r, _ := callArgs(cs.Common())
+			if strings.HasSuffix(render(r), "$r.accounts") {
+				trieReset = cs.Instr
+			}
+		}
+		if !c.check(trieReset != nil, "C14.reset-complete", "world Reset resets the account trie", fn.Pos(), "ws.accounts.Reset(snapshot.accounts)", "the account trie is not reset") {
+		} else {
+			for _, cs := range c.calls(fn, byCallee("worldStateImpl).getAccountSnapshotWithKey")) {
+				c.check(dominatesInstr(trieReset, cs.Instr), "C14.reset-complete", "cached accounts are re-read from the trie after it was reset", cs.Pos(), "accounts.Reset → lookups", "the cached accounts are re-synchronised from the account trie before it is reset to the target snapshot: they keep the state from after the snapshot")
+			}
+		}
+	}
+	// (5) Flush writes every part of the account on every path
+	if fn := c.mustFn(pk, "accountSnapshotImpl", "Flush"); fn != nil {
+		type part struct{ field, method string }
+		for _, p := range []part{{"apiInfo", "Flush"}, {"curContract", "flush"}, {"nextContract", "flush"}, {"objGraph", "flush"}, {"store", "Flush"}} {
+			var call ssa.Instruction
+			for _, cs := range c.calls(fn, byMethod(p.method)) {
+				r, _ := callArgs(cs.Common())
+				if strings.Contains(render(r), "$r."+p.field) || strings.Contains(render(r), "."+p.field) {
+					call = cs.Instr
+				}
+			}
+			if !c.check(call != nil, "C14.flush-complete", "Flush writes the account's "+p.field, fn.Pos(), "found", "the "+p.field+" of an account is never flushed") {
+				continue
+			}
+			for _, e := range successAlts(fn) {
+				tr, reach := pathAvoidingEdges(fn, nil, isInstr(e.Ret), isInstr(call),
+					wSame(p.field+" absent", `\.`+p.field+`$`, `^nil`),
+					wFalse("not a flushable snapshot", `\.`+p.field+`\.\(.*\)#1$`))
+				c.check(!reach, "C14.flush-complete", "Flush succeeds only after writing the "+p.field+" (when present)", e.pos(), "no bypass", "Flush can return success without writing the "+p.field+" although it is present: after a reload the hash is right but the data is unreadable ("+traceString(tr)+")")
+			}
+		}
+	}
+	// (6) the cache flush visits every cached account
+	if fn := c.mustFn(pk, "worldStateImpl", "flushAccountCacheInLock"); fn != nil {
+		var hdr *ssa.BasicBlock
+		for _, cs := range c.calls(fn, byMethod("GetSnapshot")) {
+			hdr = loopHeaderOf(cs.Instr.Block())
+		}
+		if hdr == nil {
+			c.violate("C14.flush-complete", "the account cache is flushed in a loop over the cached accounts", fn.Pos(), "no loop found")
+		} else {
+			body := loopBody(hdr)
+			early := false
+			for _, b := range fn.Blocks {
+				if !body[b] || b == hdr {
+					continue
+				}
+				for _, sc := range b.Succs {
+					if !body[sc] {
+						early = true
+						c.violate("C14.flush-complete", "flushing the account cache visits every cached account", b.Instrs[len(b.Instrs)-1].Pos(), "the flush loop is left from inside its body (return/break): accounts later in the (random) map order are not written, so the state hash depends on access order")
+					}
+				}
+			}
+			if early {
+				return
+			}
+			c.ok("C14.flush-complete", "flushing the account cache visits every cached account", fn.Pos(), "no return inside the loop")
+		}
+	}
 }
